@@ -132,7 +132,11 @@ func cmdVerify(args []string) {
 					fmt.Printf("             %s = %s\n", k, m[k])
 				}
 				if *explain && ob.script != nil {
+					shown := 0
 					for i, part := range splitGoal(ob.Goal) {
+						if shown >= 3 {
+							break
+						}
 						sub := *ob
 						sub.Goal = part
 						r := Solve(sub.Query(), *timeout, false)
@@ -142,6 +146,7 @@ func cmdVerify(args []string) {
 								txt = txt[:300]
 							}
 							fmt.Printf("             conjunct %d: %s: %s\n", i, r.Status, txt)
+							shown++
 						}
 					}
 				}
